@@ -37,6 +37,10 @@ thread_local! {
     static LAST_PANIC: RefCell<(String, String)> = RefCell::new((String::new(), String::new()));
 }
 
+pub fn clear_last_panic() {
+    LAST_PANIC.with(|p| *p.borrow_mut() = (String::new(), String::new()));
+}
+
 pub fn install_panic_hook() {
     std::panic::set_hook(Box::new(|info| {
         let msg = if let Some(s) = info.payload().downcast_ref::<&str>() {
